@@ -1,5 +1,5 @@
 """C09 — base discretization honours min_freq and keeps its granularity."""
-from harness import k_api, k_ordinal, k_quantiles
+from harness import k_api, k_categorical, k_ordinal, k_quantiles
 
 
 def obligations(tier):
@@ -8,6 +8,7 @@ def obligations(tier):
         k_api.obligation(tier, {"C09"}, "O9.3 end to end: QuantitativeDiscretizer/Discretizer buckets hold >= min_freq/2 of the rows unless one remains; NaN separate",
                          ["QuantitativeDiscretizer", "Discretizer"], ns=[4] if quick else [4, 5, 6], max_pats=3 if quick else 6,
                          param_grid=[dict(min_freq=0.5), dict(min_freq=0.25), dict(min_freq=0.2)] + ([] if quick else [dict(min_freq=0.34), dict(min_freq=0.15)])),
+        k_categorical.obligation(tier, {"C09"}, "O9.4 a categorical value is in the default group iff it is rarer than min_freq; NaN stays separate"),
         k_ordinal.obligation(tier, {"C09"}, "O9.1 ordinal buckets hold >= min_freq of the rows (or one bucket remains); NaN stays its own modality; min_freq symbolic in (0,0.5]"),
         k_quantiles.obligation(tier, {"C09", "C03"}, "O9.2 ContinuousDiscretizer boundaries: strictly increasing observed values then +inf; frequent values are boundaries; bucket-size bound",
                                ["sorted", "perm"]),
